@@ -319,6 +319,18 @@ def rule_b(ctx, side):
                 out |= set(sp["store"])
             return frozenset(out)
         IN_may, _ = C.solve_forward(g, frozenset(), tr_may, lambda a_, b_: a_ | b_, exc_transfer=lambda nd, si, so: si)
+        # every store of a balance attribute holds a fitted value: expanded through the once-bound locals, it contains the result of an
+        # optimiser or of a least-squares solve; a value built from the swatches without either (channel means, ratios) is not the least-squares fit
+        FITTERS = ("scipy.optimize.", "np.linalg.lstsq", "np.linalg.solve", "np.linalg.pinv", "scipy.linalg.", "np.linalg.inv")
+        for s_ in ast.walk(f.node):
+            if isinstance(s_, ast.Assign) and self_attr(s_.targets[0]) in sp["store"] and s_ not in ast.walk(o):
+                ex = expand(f.node, s_.value, helpers=True)
+                calls_ = [norm(c_.func) for c_ in ast.walk(ex) if isinstance(c_, ast.Call)]
+                reads_data = {x.id for x in ast.walk(ex) if isinstance(x, ast.Name)} & {src, dst}
+                fitted = any(cn.startswith(FITTERS) for cn in calls_)
+                ctx.ob(R, f.qname, f"`{norm(s_)[:60]}`: the stored balance is the result of the fit", fitted or not reads_data,
+                       f"self.{self_attr(s_.targets[0])} is computed from the swatches as {norm(ex)[:110]} with no optimiser / least-squares solve: not the least-squares balance for the mode "
+                       "(ratio of channel means differs from it whenever the data are not exactly diagonal)", s_, evidence=True)
         bare = [nd for nd in g.nodes if nd.kind == "return" and not (set(sp["store"]) <= set(IN_may.get(nd.id, frozenset())))]
         ctx.ob(R, f.qname, "every return of find_balance has stored the fitted balance", set(sp["store"]) <= set(at_exit),
                f"attributes written on every path to a return: {sorted(at_exit)}; needed {sorted(sp['store'])} -- a re-fit that takes the early exit keeps the previous balance"
@@ -521,8 +533,42 @@ def rule_f(ctx):
     ctx.ob(R, CC, f"{n} cyclic re-ordering(s) in the colour-correction module checked", True, "", None)
 
 
+def rule_g(ctx):
+    R = "C12.g"
+    ctx.rule(R, "the swatches are fitted as given: no find_balance re-binds its source or destination swatches to an arithmetic function of "
+             "themselves (a rescaling by 255, a gamma, a clip) -- conversions of container type (np.asarray, astype, reshape) aside; a "
+             "value-dependent rescaling ('looks like 8 bit') changes what a legitimate destination above 1.0 means")
+    m = ctx.model
+    n = 0
+    CONV = ("np.asarray", "np.array", "np.atleast_2d", "np.reshape", "np.ascontiguousarray", "np.copy", "skimage.img_as_float", "skimage.img_as_float32", "skimage.img_as_float64")
+    for k in m.mod(MOD).classes.values():
+        f = k.methods.get("find_balance")
+        if f is None or len(f.params) < 3:
+            continue
+        n += 1
+        ctx.instance(R)
+        bad = []
+        for s_ in ast.walk(f.node):
+            tgt, val = None, None
+            if isinstance(s_, ast.Assign) and len(s_.targets) == 1 and isinstance(s_.targets[0], ast.Name):
+                tgt, val = s_.targets[0].id, s_.value
+            elif isinstance(s_, ast.AugAssign) and isinstance(s_.target, ast.Name):
+                tgt, val = s_.target.id, s_
+            if tgt not in f.params[1:3]:
+                continue
+            if isinstance(val, ast.AugAssign) or (isinstance(val, ast.BinOp) and tgt in {x.id for x in ast.walk(val) if isinstance(x, ast.Name)}):
+                bad.append(norm(s_)[:70])
+            elif isinstance(val, ast.Call) and not (norm(val.func) in CONV or (isinstance(val.func, ast.Attribute) and val.func.attr in ("astype", "reshape", "copy", "squeeze"))) \
+                    and tgt in {x.id for x in ast.walk(val) if isinstance(x, ast.Name)} and norm(val.func).startswith(("np.clip", "np.power", "np.divide", "np.multiply", "np.minimum", "np.maximum")):
+                bad.append(norm(s_)[:70])
+        ctx.ob(R, f.qname, f"{k.name}.find_balance fits the swatches it is given", not bad,
+               f"{bad[:2]}: the swatches are rescaled before the fit; a destination (or source) that legitimately has such values is fitted against something else", f.node, evidence=True)
+    ctx.floor(R, 4)
+
+
 def run(ctx):
     rule_f(ctx)
+    rule_g(ctx)
     # colour corrections are applied to images and arrays through the shared BaseCorrection workflow
     from . import c10 as _c10
     from .common import shared as _shared
